@@ -11,6 +11,7 @@ The scope is: every node of every corpus program x the operation table below (si
 seeded random edit sequences.  Bounded; never counted as proved.
 """
 import ast
+import zlib
 import random
 
 from contracts.b_lib import (REFUSALS, tree_diff, c01_violation, dump, node_paths, follow, sdump)
@@ -176,7 +177,7 @@ class Sweep:
         root = self.fresh()
         paths = [(p, category(f), f.a.__class__.__name__) for p, f in node_paths(root) if p]
         quick = self.payload.get('tier', 'quick') == 'quick'
-        rnd = random.Random(hash((self.payload.get('seed', 0), self.name)) & 0xffffffff)
+        rnd = random.Random(zlib.crc32(f'{self.payload.get("seed", 0)}:{self.name}'.encode()))
         ops = self.payload.get('ops', ['self', 'remove', 'donor', 'slice'])
         stride = self.payload.get('stride', 1) if quick else 1
         if stride > 1:
